@@ -181,9 +181,10 @@ CLAIMED = {
              "projective rescaling incl. the Z=1 fast path and under (x,y)->(-x,-y)), always 32 bytes; Equal holds between all "
              "representations of one class, is reflexive, symmetric, transitive (middle Y invertible), false against the "
              "all-zero value, and is exactly equality of X/Y; MAIN: for all valid elements Equal <-> equal Bytes, under the "
-             "explicit premises 'p prime' and 'd non-square' (no zero divisors, the curve quadratic in y^2). PARTIAL: "
-             "'decode(Bytes P) succeeds and is Equal to P' needs completeness of the square root (C17 partial); decided by "
-             "correspondence on random operation histories over all representations.",
+             "explicit premises 'p prime' and 'd non-square' (no zero divisors, the curve quadratic in y^2); decode(Bytes P) "
+             "succeeds with the untrusted decoder and gives an element with the same bytes, Equal to P, for every valid "
+             "element (further premises: encoded x passes the subgroup test; y^Q in the dyadic subgroup; both shown for the "
+             "generator by kernel computation). Correspondence on random operation histories over all representations.",
         note="primality of p and non-squareness of d are premises of C07_equal_iff_bytes (not re-proved: no primality certificate available offline).",
         tech="Coq proof (representation invariance, equivalence laws) + differential correspondence on histories", ref="DESIGN.md 6.7"),
     "C11": dict(
